@@ -1,5 +1,5 @@
 (* C02 — theorems over the mode tables regenerated from /repo/code.go on THIS run (GenC02.Tables). *)
-From C02 Require Import Model Spec Proofs.
+From C02 Require Import Model Spec Proofs OneForm.
 From GenC02 Require Import Tables.
 
 (* every one of the 15 x 256 table entries is an action the refinement proof covers in that mode *)
@@ -23,6 +23,21 @@ Theorem cuts_do_not_matter_now : forall one blocks1 blocks2, concat blocks1 = co
   m_read_stream tables esc one m0 blocks1 0 = m_read_stream tables esc one m0 blocks2 0.
 Proof. intros one b1 b2 H. apply (delivery_independent tables esc one b1 b2 tables_ok H). Qed.
 Print Assumptions cuts_do_not_matter_now.
+
+(* the mode discipline the one-form theorem needs: which action may stand in which mode on which byte
+   (15 x 256 entries), and that ')' in value mode is the close action *)
+Theorem tables_ok2 : table_ok2 tables = true /\ table_ok3 tables = true.
+Proof. split; vm_compute; reflexivity. Qed.
+Print Assumptions tables_ok2.
+
+(* hence, with the current tables: when the one-form read of a text stops after an object at position p,
+   the whole text reads as that object followed by what the text from p on reads as *)
+Theorem one_then_rest_now : forall text s' p,
+  s_scan tables esc true s0 text 0 = (s', p) -> c_err (s_core s') = None -> has_obj (s_core s') = true ->
+  s_read_gen tables esc true text = ROk (rev (code (c_p (s_core s')))) p /\
+  s_read tables esc text = prepend (rev (code (c_p (s_core s')))) p (s_read tables esc (skipn p text)).
+Proof. intros. apply one_then_rest; try assumption; [exact tables_ok|apply tables_ok2|apply tables_ok2]. Qed.
+Print Assumptions one_then_rest_now.
 
 (* the tables are the real ones, not something trivially accepted: a token split over three reads *)
 Theorem tables_nontrivial :
